@@ -533,6 +533,11 @@ fn resolve_regions(
 
     // Create vftable
     let first_base = regions.iter().map(|t| &t.1).find(|r| r.is_base);
+    // The first base decides whether this type gets a vftable pointer of its own,
+    // so nothing can be laid out before that base is resolved.
+    if first_base.is_some_and(|r| r.size(&semantic.type_registry).is_none()) {
+        return Ok(None);
+    }
     let (vftable, vftable_region) = vftable::build(
         semantic,
         resolvee_path,
